@@ -396,3 +396,41 @@ func VerifC13WrappedInnerRun() {
 	vassert(errors.Is(rerr, c13Sentinel), "errors.Is finds the innermost cause")
 	vassert(strings.Contains(rerr.Error(), "node path: [n]"), "the error names the failing node of this run")
 }
+
+// user code that the run loop itself calls — a state pre-handler, a state post-handler, a branch condition — panics:
+// the run returns an error; the panic does not escape into the caller of Invoke / Stream
+func VerifC13HandlerPanic() {
+	ctx := context.Background()
+	vcfg("fifo", 1)
+	vcfg("selectfirst", 1)
+	where := vchoose("where", 3)
+	g := NewGraph[map[string]any, map[string]any](WithGenLocalState(func(ctx context.Context) *c13State { return &c13State{} }))
+	var opts []GraphAddNodeOpt
+	switch where {
+	case 0:
+		opts = append(opts, WithStatePreHandler(func(ctx context.Context, in map[string]any, s *c13State) (map[string]any, error) {
+			panic("c13 pre-handler panic")
+		}))
+	case 1:
+		opts = append(opts, WithStatePostHandler(func(ctx context.Context, out map[string]any, s *c13State) (map[string]any, error) {
+			panic("c13 post-handler panic")
+		}))
+	}
+	_ = g.AddLambdaNode("a", vNode("a", nil), opts...)
+	_ = g.AddLambdaNode("b", vNode("b", nil))
+	_ = g.AddEdge(START, "a")
+	if where == 2 {
+		_ = g.AddBranch("a", NewGraphBranch(func(ctx context.Context, in map[string]any) (string, error) {
+			panic("c13 branch condition panic")
+		}, map[string]bool{"b": true, END: true}))
+	} else {
+		_ = g.AddEdge("a", "b")
+	}
+	_ = g.AddEdge("b", END)
+	r, err := g.Compile(ctx)
+	vassert(err == nil, "graph compiles")
+	rerr := c13Run(r, vchoose("paradigm", 2), map[string]any{"in": vsymInt("x")})
+	vquiesce()
+	vassert(rerr != nil, "the run fails with an error")
+	vassert(strings.Contains(rerr.Error(), "panic"), "the error says what happened")
+}
